@@ -283,7 +283,7 @@ func init() {
 			}
 		},
 		Extra: modeRoundTrip,
-		Quick: 32000, Thorough: 600000, QuickSecs: 60, ThorSecs: 1200,
+		Quick: 32000, Thorough: 2400000, QuickSecs: 60, ThorSecs: 1200,
 		Rule:  "three simulated parts in rotation, all with scheduling points at atomics and sync.Map operations: (a) 2-8 tasks x 10-50 lookups of (dev, ino) pairs from {0, 1, 0x801, majors/minors >= 2^12, high device bits, 2^64-1} x {0, 1, 2^39-1, 2^39, 2^39+1, 2^63, 2^64-1, neighbours} through the verif-tagged localfs export; (b) 2-8 tasks x 6-36 lookups of 1-6 source paths on one qids.Mapper; (c) 1-3 connections x 1-3 pipelined client threads walking to, getattr-ing and clunking every path of a composefs (static mount, localfs mount on a temp dir, plain files) under the real server. Oracle: get-or-assign map model — the same key maps to the same path for good, different keys to different paths (checked on every observation of the concurrent history, which for this model is equivalent to linearizability against the sequential get-or-assign map); QID type = type of the mode; no runtime abort; the race-detector batch covers the mapper under concurrent requests. Plus, NOT a simulation: the exhaustive 7 x 4096 FileMode <-> os.FileMode round trip, run in the parent and reported separately.",
 		Assume: []string{"process-global localfs state (qids, nextQid) persists across runs of a worker: the oracle is insensitive to absolute values"},
 		Real:   []string{"fsimpl/localfs localToQid/encodeLikely", "fsimpl/qids Mapper/PathGenerator", "fsimpl/composefs", "fsimpl/staticfs", "p9.Server", "p9.FileMode conversions"},
